@@ -211,6 +211,7 @@ pub fn build_big(c: &BigCase) -> Scenario {
         scope: if c.consumed { Scope::Consumed } else { Scope::Whole },
         stamps: c.stamps,
         names: if c.outnames { Names::Outputs } else { Names::JobIds },
+        anon: false,
     };
     let sched = Sched { choices: vec![], max_running: 255, ack_mode: 0, decl: vec![], exact: false };
     let plain = Plan { fail: 0, fail_mode: 0, abort: None, sched: sched.clone(), alts: vec![] };
